@@ -57,9 +57,10 @@ func genC06(t *rapid.T) *c06Case {
 	c.MemSrc = rapid.Bool().Draw(t, "memsrc")
 	c.Capacity = rapid.SampledFrom([]int{0, 0, 1, 8, 64}).Draw(t, "cap")
 	tr := c06Tree(c)
+	c.Script.ReqLinks = rapid.Bool().Draw(t, "reqlinks")
 	nreq := 0
 	for _, n := range tr.Nodes {
-		if (n.Kind == h.KFile && n.LinkTo == "") || n.Kind == h.KSocket {
+		if (n.Kind == h.KFile && (n.LinkTo == "" || c.Script.ReqLinks)) || n.Kind == h.KSocket {
 			nreq++
 		}
 	}
@@ -285,6 +286,11 @@ func c06Check(env *h.Env, c *c06Case) error {
 	for _, n := range tr.Nodes {
 		if n.Kind == h.KFile && n.LinkTo == "" {
 			content[n.Path] = h.Content(n.Seed, n.Size)
+		}
+	}
+	for _, n := range tr.Nodes {
+		if n.Kind == h.KFile && n.LinkTo != "" {
+			content[n.Path] = content[n.LinkTo] // a link member is a regular file with its group's bytes
 		}
 	}
 
